@@ -18,7 +18,8 @@ RULE = ("seeded traces over 1-3 JSON files (one object each, nested handles) of 
         "of len(json.dumps(model content).encode()) over the files the class holds in its buffer; shared-memory: "
         "number of held files whose buffered copy was written to and not yet flushed), where 'held' is read (never "
         "written) from Class._buffer and cross-checked black-box (every file whose disk content differs from its "
-        "logical content must be held); forced flushes lose nothing (observer vs model). Fault kind: forced_flush. "
+        "logical content must be held); forced flushes lose nothing (observer vs model). Fault kinds: forced_flush, and (separate share of runs) io_error injected "
+        "into the flush of a context exit - the exit may raise and lose that file's buffered data, the accounting oracles must still hold. "
         "Non-trivial = size was non-zero at some step; distinct = step-shape hashes.")
 ASSUMPTIONS = ["the exactness oracle reads the class attribute _buffer (key set / modified flags); if it does not exist "
                "that oracle is skipped and probes report it", "one object per file; no outside writer"]
@@ -54,6 +55,10 @@ class W(World):
         if c["kind"] == "backend" and c.get("cap") is not None:
             self.caps[cls] = c["model_cap_before"]
         super().after_exit(c, cls, flushed, res, pre)
+
+    def after_faulted_exit(self, c, cls):
+        if c["kind"] == "backend" and c.get("cap") is not None:
+            self.caps[cls] = c["model_cap_before"]
 
     def st_setcap(self, st):
         cls = self.cls_of(st["family"], st["kind"])
@@ -130,11 +135,24 @@ def make_cfg(rs, tier):
     cfg["capmode"] = rs.choice(["small", "small", "huge"])
     cfg["forced_flush_possible"] = cfg["capmode"] == "small"
     cfg["oracles"] = ["backend", "result", "bufsize"]
+    # fault-injecting configuration (separate share of runs): an OSError hits the flush of a context exit
+    cfg["p_fault"] = 0.5 if rs.random() < 0.25 else 0.0
+    if cfg["p_fault"]:
+        cfg["capmode"], cfg["forced_flush_possible"] = "huge", False
+        if not (cfg["wc"] or cfg["threading"]):
+            cfg["wc"] = True
     return cfg
 
 
 setup = _buf.setup
-gen_step = _buf.gen_step
+
+
+def gen_step(w, rg):
+    st = _buf.gen_step(w, rg)
+    # only the OUTERMOST exit is faulted (no context remains, so every oracle has a crisp expectation), default capacity
+    if st and st["t"] == "exit" and len(w.ctx) == 1 and w.cfg.get("p_fault") and rg.random() < w.cfg["p_fault"]:
+        st["fault"] = {"at": rg.randrange(0, 8), "exc": ["OSError", rg.choice(["EIO", "ENOSPC", "EACCES", "EMFILE"])]}
+    return st
 
 
 def signature(w, cfg, steps):
